@@ -317,6 +317,27 @@ def respond (st : St) (line : String) : St × Option String :=
             else (st, some s!"FAIL derive CORR not-derivable nogood={repr ng} clauses={g.length}")
           | _ => (st, some "FAIL derive unparsed"))
        | _ => (st, some "FAIL derive unparsed"))
+  | "nderive" :: n :: rest =>
+    -- `nderive <k> (<atoms> none|<atom>)*k :: <atoms:premises> none|<atom>`: a reason of the nogood
+    -- propagator follows from the stored nogoods (learned, blocking, root facts) or from the model
+    (match n.toNat? with
+     | none => (st, some "FAIL nderive unparsed")
+     | some k =>
+       let pImpl : P Pumpkin.Derive.Impl := fun ts => do
+         let (prem, ts) ← pList pAtom ts
+         match ts with
+         | "none" :: ts => pure ((prem, none), ts)
+         | ts => do let (q, ts) ← pAtom ts; pure ((prem, some q), ts)
+       match pRep pImpl k rest with
+       | some (g, "::" :: rest) =>
+         (match pImpl rest with
+          | some ((prem, concl), []) =>
+            let ng := match concl with | some q => q.neg :: prem | none => prem
+            if Pumpkin.Derive.derivable st.model.doms g ng then (st, some "ok nderive stored")
+            else if checkNogood st.sols ng then (st, some "ok nderive model")
+            else (st, some s!"FAIL nderive CORR reason-of-nogood-propagator-not-derivable nogood={repr ng} clauses={g.length}")
+          | _ => (st, some "FAIL nderive unparsed"))
+       | _ => (st, some "FAIL nderive unparsed"))
   | "cumopts" :: rest =>
     ({ st with cumHoles := rest.map (· == "1") }, some "ok cumopts")
   | ["litdefs", n] =>
